@@ -38,7 +38,7 @@ func mSqrt(matrix Matrix) (Matrix, error) {
   n, _ := matrix.Dims()
   c  := NewScalar(matrix.ElementType(), 0.5)
   t0 := NewScalar(matrix.ElementType(), 0.0)
-  Y0 := matrix
+  Y0 := matrix.CloneMatrix()
   Z0 := NullDenseMatrix(matrix.ElementType(), n, n)
   Z0.SetIdentity()
   t1, err := matrixInverse.Run(Z0)
